@@ -43,7 +43,7 @@ def write_replay(prop, job, failure):
 def fresh_replay(path) -> bool:
     """re-execute the counterexample in a fresh interpreter without CrossHair"""
     env = dict(os.environ)
-    env["PYTHONPATH"] = ROOT
+    env["PYTHONPATH"] = (os.environ["VF_SRC"] + os.pathsep if os.environ.get("VF_SRC") else "") + ROOT  # VF_SRC: seed triage only
     p = subprocess.run(
         [sys.executable, "-m", "vf.run", "--replay", path],
         cwd=ROOT,
